@@ -79,6 +79,10 @@ def pub_world(rng):
     counters = {"p": 0, "a": 0}
     items = {}      # code -> dict(parent, links, creators, recipients, actor, media, pfp, banner)
 
+    def host():
+        # credentials, ports: parts of a link that a printer could "tidy" on the way to the media hook
+        return rng.choice(["m.example", "m.example", "alice:s3cret@m.example", "bob@m.example", "m.example:8443", ":pw@m.example"])
+
     def blank():
         return {"parent": -1, "links": [], "creators": None, "recipients": None, "actor": -1, "media": None, "pfp": None, "banner": None}
 
@@ -88,11 +92,11 @@ def pub_world(rng):
         d = {"type": rng.choice(["Person", "Person", "Group", "Service"]), "name": "a%d" % n}
         it = blank()
         if rng.random() < 0.6:
-            u = "https://m.example/a%d-icon.png" % n
+            u = "https://%s/a%d-icon.png" % (host(), n)
             d["icon"] = rng.choice([{"type": "Image", "url": u}, {"type": "Image", "url": u, "mediaType": "image/png"}, [{"type": "Image", "url": u}]])
             it["pfp"] = u
         if rng.random() < 0.5:
-            u = "https://m.example/a%d banner.png?x=1&y=$(id)" % n
+            u = "https://%s/a%d banner.png?x=1&y=$(id)" % (host(), n)
             d["image"] = {"type": "Image", "url": u}
             it["banner"] = u.replace(" ", "%20")
         items[2000 + n] = it
@@ -129,7 +133,7 @@ def pub_world(rng):
         if docs is not None:
             d["audience"] = docs
         if rng.random() < 0.6:
-            u = "https://m.example/p%d-media.%s" % (n, rng.choice(["mp4", "png", "ogg"]))
+            u = "https://%s/p%d-media.%s" % (host(), n, rng.choice(["mp4", "png", "ogg"]))
             form = rng.randrange(3)
             d["url"] = [u, {"type": "Link", "href": u}, [{"type": "Link", "href": u, "mediaType": kind.lower() + "/x-any"}]][form]
             # (the string shorthand never yields a link on this tree: getLinksShorthand hands NewLink an object.Object, which
@@ -137,7 +141,7 @@ def pub_world(rng):
             it["media"] = u if form else None
         atts = []
         for j in range(rng.choice((0, 0, 1, 2, 3))):
-            u = "https://m.example/p%d-att%d" % (n, j)
+            u = "https://%s/p%d-att%d#frag" % (host(), n, j)
             atts.append({"type": "Document", "url": u, "name": "attachment %d" % j})
             it["links"].append(u)
         if atts:
